@@ -232,6 +232,9 @@ func (x *Exec) doCall(st *State, in ssa.Instruction, c *ssa.CallCommon, mode str
 	}
 
 	// abstract: havoc the callee's write set, fresh results
+	for _, a := range args {
+		x.escape(st, a)
+	}
 	name := full
 	if verified {
 		name = x.P.ShortName(callee)
@@ -388,6 +391,16 @@ func (x *Exec) doGo(st *State, i *ssa.Go) {
 			x.Spawned[x.P.ShortName(fv.Fn)]++
 		}
 	}
+	if x.fc != nil && x.fc.Opts["handover"] != "" && st.fr.parent == nil {
+		// hand-over protocol: the goroutine started here receives the locked mutex
+		var keep []heldLock
+		for _, h := range st.held {
+			if h.Key != "obj" {
+				keep = append(keep, h)
+			}
+		}
+		st.held = keep
+	}
 	x.fireHooks(st, i, "go", true, args, nil)
 }
 
@@ -466,6 +479,11 @@ func (x *Exec) applyContract(st *State, in ssa.Instruction, fc *FuncContract, ca
 	// blocking effect of the callee
 	x.effectOfCall(st, in, fc, name, env)
 	old := st.clone()
+	for _, a := range args {
+		if !fc.Pure {
+			x.escape(st, a)
+		}
+	}
 	// frame
 	if callee != nil {
 		for k := range x.W.fnWrites(x, callee) {
@@ -477,11 +495,6 @@ func (x *Exec) applyContract(st *State, in ssa.Instruction, fc *FuncContract, ca
 	for _, k := range fc.Modifies {
 		if _, ok := x.keySort(k); ok {
 			x.havocKey(st, k)
-		}
-	}
-	for _, a := range args {
-		if !fc.Pure {
-			x.escape(st, a)
 		}
 	}
 	var res []SymVal
@@ -529,6 +542,16 @@ func (x *Exec) applyContract(st *State, in ssa.Instruction, fc *FuncContract, ca
 	}
 	env2.old = old
 	bindPos(env2, res)
+	if len(fc.FreshFuns) > 0 {
+		env2.funs, env2.funSorts = map[string]string{}, map[string]string{}
+		for _, sf := range fc.FreshFuns {
+			x.D.n++
+			sym := fmt.Sprintf("ff_%s!%d", sf.Name, x.D.n)
+			x.D.Fun(sym, sf.Params, sf.Ret)
+			env2.funs[sf.Name] = sym
+			env2.funSorts[sf.Name] = sf.Ret
+		}
+	}
 	// the callee's ghost variables are unknown at the call site
 	for _, g := range fc.Ghosts {
 		env2.binds[g.Name] = Bound{V: x.D.Fresh("cg_"+g.Name, g.Sort)}
@@ -607,6 +630,7 @@ func (x *Exec) builtin(st *State, in ssa.Instruction, b *ssa.Builtin, c *ssa.Cal
 		m := x.term(st, args[0], argT(0))
 		k := x.term(st, args[1], argT(1))
 		x.mapFieldPolicy(st, c.Args[0], true, in)
+		x.fireHooks(st, in, "delete", false, []SymVal{m, k}, nil)
 		H, C := x.heap(st, hk), x.heap(st, ck)
 		had := Select(Select(H, m), k)
 		// delete on a nil map is a no-op
@@ -751,12 +775,12 @@ func (x *Exec) doSend(st *State, i *ssa.Send) {
 	v := x.val(st, i.X)
 	x.escape(st, v)
 	vt := x.term(st, v, i.X.Type())
+	x.blockingPoint(st, i, "send", x.sendText(i.Pos()), nil)
 	x.fireHooks(st, i, "send", false, []SymVal{ch, vt}, nil)
 	if x.wantNoPanic {
 		o := x.oblig("nopanic[send on closed "+x.srcOf(i)+"]", "nopanic", nil, i.Pos())
 		x.Assert(st, o, Not(Select(x.heap(st, kChClosed), ch)))
 	}
-	x.blockingPoint(st, i, "send", x.sendText(i.Pos()), nil)
 	x.fireHooks(st, i, "send", true, []SymVal{ch, vt}, nil)
 }
 
@@ -917,11 +941,8 @@ func (x *Exec) fireSelectHooks(st *State, i *ssa.Select, idx int, kind, txt stri
 // ---------------------------------------------------------------- hooks
 
 func (x *Exec) fireHooks(st *State, in ssa.Instruction, kind string, after bool, args []SymVal, res []SymVal) {
-	if st.fr.parent != nil && st.fr.fn != x.fn {
-		// hooks apply to the verified function's own instructions only
-		if _, ok := x.hooksAt[in]; !ok {
-			return
-		}
+	if _, ok := x.hooksAt[in]; !ok {
+		return
 	}
 	for _, h := range x.hooksAt[in] {
 		if h.Kind != kind {
@@ -992,6 +1013,18 @@ func (x *Exec) runHook(st *State, h *Hook, in ssa.Instruction, before bool, args
 		}
 	} else if mc, ok := in.(*ssa.MakeChan); ok && len(res) > 0 {
 		env.binds["res"] = Bound{V: res[0], T: mc.Type()}
+	} else if mu, ok := in.(*ssa.MapUpdate); ok && len(args) >= 3 {
+		mt := types.Unalias(mu.Map.Type()).Underlying().(*types.Map)
+		env.binds["m"] = Bound{V: args[0], T: mu.Map.Type()}
+		env.binds["key"] = Bound{V: args[1], T: mt.Key()}
+		env.binds["val"] = Bound{V: args[2], T: mt.Elem()}
+	}
+	if h.Kind == "delete" && len(args) >= 2 {
+		if ci, ok := in.(*ssa.Call); ok && len(ci.Call.Args) == 2 {
+			mt := types.Unalias(ci.Call.Args[0].Type()).Underlying().(*types.Map)
+			env.binds["m"] = Bound{V: args[0], T: ci.Call.Args[0].Type()}
+			env.binds["key"] = Bound{V: args[1], T: mt.Key()}
+		}
 	}
 	if val != nil {
 		name := h.Bind
@@ -1024,6 +1057,15 @@ func (x *Exec) runHook(st *State, h *Hook, in ssa.Instruction, before bool, args
 		case "assume":
 			st.Assume(x.evalBool(env, a.C))
 		case "set":
+			if gs, isHeap := x.CS.GhostHeaps[a.Var]; isHeap {
+				x.regHeap("G!"+a.Var, gs)
+				v := x.evalTerm(env, a.C)
+				if v.Sort != gs {
+					panic(specErr{fmt.Sprintf("%s:%d: ghost heap %s has sort %s, assigned %s", a.C.File, a.C.Line, a.Var, gs, v.Sort)})
+				}
+				x.setHeap(st, "G!"+a.Var, v)
+				continue
+			}
 			old, ok := st.ghost[a.Var]
 			if !ok {
 				panic(fmt.Sprintf("%s:%d: set of undeclared ghost %s", a.C.File, a.C.Line, a.Var))
